@@ -21,11 +21,7 @@ func register(p *mon.Prop) {
 	inner := p.Flavours
 	p.Flavours = func(tier string) []string {
 		fl := append([]string(nil), inner(tier)...)
-		n := 8
-		if tier == "thorough" {
-			n = 16
-		}
-		for i := 1; i <= n; i++ {
+		for i := 1; i <= mon.ColdVariants(tier); i++ {
 			fl = append(fl, "release#coldconc"+strconv.Itoa(i))
 		}
 		return fl
